@@ -965,15 +965,108 @@ def check_C19(chk):
             if got != m and ci in transcripts:
                 k = next((j for j in range(min(len(got), len(m))) if got[j] != m[j]), min(len(got), len(m)))
                 dis.append({"game": "c%d" % ci, "line": k, "impl": got[k] if k < len(got) else "<end>", "model": m[k] if k < len(m) else "<end>", "script": blk[1:]})
-    chk.cov["evaluations"] = stats["runs"]
+    if status.get("driver"):
+        sdis, sstats = session_correspondence(chk)
+        dis = dis + sdis
+        stats["session_model"] = sstats
+    chk.cov["evaluations"] = stats["runs"] + stats.get("session_model", {}).get("commands", 0)
     chk.cov["distinct_nontrivial"] = len(transcripts) * 2
     chk.cov["rule"] = ("%d (position, depth 3-5) pairs, each run %d times on the real binary in a fresh process: alternating with and without busy loops on all %d cores, with "
                        "growing environment blocks (stack/heap layout), and after command prefixes that search other positions and end in ucinewgame. All transcripts of the final go "
                        "(info depth/score/nodes/pv, bestmove) must be identical, and identical to the extracted model's transcript from an empty table. "
-                       "Non-trivial: every pair (all have multi-iteration searches).") % (npos, reps, lib.NPROC)
+                       "Non-trivial: every pair (all have multi-iteration searches). In addition random sequential sessions (position with legal, illegal and garbage moves, valid and "
+                       "malformed FEN, go depth, show, ucinewgame, isready, uci) are run on the binary and through the extracted Model/Session.v: every output line must agree.") % (npos, reps, lib.NPROC)
     chk.cov["input_distribution"] = stats
     chk.cov["samples"] = [{"position": cases[0][0], "depth": cases[0][1], "transcript": transcripts.get(0, [])[:12]}]
     return finish(chk, broken, dis, model_blocks, {"x": ["y"] * stats["runs"]})
+
+
+TESTING_GAME = ("g1f3 g8f6 c2c4 g7g6 b1c3 f8g7 d2d4 e8g8 c1f4 d7d5 d1b3 d5c4 b3c4 c7c6 e2e4 b8d7 a1d1 d7b6 c4c5 c8g4 f4g5 b6a4 c5a3 a4c3 "
+                "b2c3 f6e4 g5e7 d8b6 f1c4 e4c3 e7c5 f8e8 e1f1 g4e6 c5b6 e6c4 f1g1 c3e2 g1f1 e2d4 f1g1 d4e2 g1f1 e2c3 f1g1 a7b6 a3b4 a8a4").split()
+
+
+def session_lines(rng, n):
+    """a sequential UCI session (every go is followed by wait): list of command lines"""
+    out = []
+    for _ in range(n):
+        r = rng.below(100)
+        if r < 30:
+            k = rng.below(len(TESTING_GAME))
+            mv = TESTING_GAME[:k]
+            if rng.chance(1, 5):
+                mv = mv + [rng.choice(["e2e5", "zzzz", "a1a1", "e1g1", "h7h8q", "e7e8Q", "b1c3x"])] + TESTING_GAME[k:k + 2]
+            out.append("position startpos" + (" moves " + " ".join(mv) if mv or rng.chance(1, 2) else ""))
+        elif r < 45:
+            f = rng.choice(ROOTS[:30] + SMALL_ROOTS)
+            out.append("position fen " + f + rng.choice(["", "", " moves", " moves e2e4", " moves a7a8q"]))
+        elif r < 52:
+            out.append(rng.choice(["position fen 8/8/8/8/8/8/54/4K2k w - -", "position fen rubbish", "position", "position startpos e2e4",
+                                   "position fen rnbqkbnr/pppppppp/8/8/8/8/PPPPPPPP/RNBQKBNR w KQkq - 0 1 moves e2e4 moves e7e5",
+                                   "position startpos x moves e2e4"]))
+        elif r < 78:
+            out.append("go depth %d" % (1 + rng.below(3)))
+        elif r < 88:
+            out.append("show")
+        elif r < 93:
+            out.append("ucinewgame")
+        elif r < 98:
+            out.append("isready")
+        else:
+            out.append("uci")
+    return out
+
+
+def norm_lines(lines):
+    # anyhow's {:?} output of a FEN error continues with "Caused by:", the cause and possibly a backtrace: not modelled
+    return [l.rstrip() for l in lines if l.strip() and not l.startswith("Caused by") and not l.startswith("Stack backtrace")
+            and not (l.startswith(" ") and not l.startswith("   a b c")) and not l.startswith("info time")]
+
+
+def session_correspondence(chk):
+    """ties Model/Session.v (command handling of uci.rs, proved in Proofs/SessionProofs.v) to the real binary"""
+    import uci
+    rng = Rng(chk.seed * 53 + 41)
+    nsess = 10 if chk.tier == "quick" else 120
+    dis = []
+    total = 0
+    blocks = []
+    got_all = {}
+    for i in range(nsess):
+        cmds = session_lines(rng, 8 + rng.below(10))
+        eng = uci.Engine()
+        got = []
+        try:
+            for c in cmds:
+                eng.send(c)
+                if c.startswith("go"):
+                    eng.send("wait")
+            want = sum(1 for c in cmds if c == "isready") + 1
+            eng.send("isready")
+            seen = [0]
+
+            def last_ready(l):
+                if l == "readyok":
+                    seen[0] += 1
+                return seen[0] >= want
+            got, ok = eng.read_until(last_ready, 180)
+            eng.quit()
+        finally:
+            eng.kill()
+        got = norm_lines(got)
+        if got and got[-1] == "readyok":
+            got = got[:-1]
+        got_all[i] = got
+        blocks.append(["# z%d" % i, "ucireset"] + ["uci " + c for c in cmds])
+        total += len(cmds)
+    model = run_blocks(DRIVER, blocks, timeout=1800)
+    for i, blk in enumerate(blocks):
+        m = norm_lines([l for l in model.get("z%d" % i, []) if l != "ucireset ok"])
+        g = got_all[i]
+        if g != m:
+            k = next((j for j in range(min(len(g), len(m))) if g[j] != m[j]), min(len(g), len(m)))
+            dis.append({"game": "z%d" % i, "line": k, "impl": g[k] if k < len(g) else "<end>", "model": m[k] if k < len(m) else "<end>",
+                        "script": [l[4:] for l in blk[2:]]})
+    return dis, {"sessions": nsess, "commands": total}
 
 
 CHECKS = {"C06": check_C06, "C07": check_C07, "C08": check_C08, "C09": check_C09, "C10": check_C10,
